@@ -188,6 +188,29 @@ def _rdma_oscillation_signature(t, line):
     return len(hits) >= 2 and len(shrinks) >= 2
 
 
+def _dual_oscillation_signature(t, line):
+    """A third shape (dual stack): the IPv6 pool is below its minimum (no idle Valid IPv6 address on any ordinary in-use
+    interface), so one is assigned; the trimming side sizes the surplus on the IPv4 idle count (more than the maximum,
+    e.g. untrimmable primary addresses) and takes the new IPv6 address away again."""
+    w = _osc_window(t, line)
+    cf = t[0].get("conf", {})
+    if w is None or not (cf.get("v4") and cf.get("v6")):
+        return False
+    hits, trims6 = set(), set()
+    for k, (before, evs, after) in enumerate(w):
+        inuse = {x["e"]: x for x in before["enis"] if x["st"] == "InUse" and not x["rdma"]}
+        idle = [i for i in before["ips"] if i["p"] == 0 and i["st"] == "Valid" and i["e"] in inuse]
+        idle4, idle6 = [i for i in idle if i["a"] < 100], [i for i in idle if i["a"] >= 100]
+        for r in evs:
+            if r["ev"] in ("create_begin", "delete_begin", "detach", "attach"):
+                return False
+            if r["ev"] == "unassign_begin" and r["fam"] == 6:
+                trims6.add(k)
+            if r["ev"] == "assign_begin" and r["fam"] == 6 and not idle6 and len(idle4) > cf.get("max", 0):
+                hits.add(k)
+    return len(hits) >= 2 and len(trims6) >= 2
+
+
 def _lost_rollback_signature(t, line, e):
     """Known finding D20 only: interface e was created, its attach failed, the roll-back delete failed and the status
     update of that very reconcile failed, so the 'Deleting' record never reached the API server."""
@@ -216,12 +239,31 @@ def classify(prop, t, line):
     bad = t[line - 1] if 0 < line <= len(t) else {}
     ev = bad.get("ev", "?")
     label = "%s_at_%s" % (prop.lower(), ev)
+    if prop == "C02" and ev == "cr":
+        # dual stack split over two interfaces because a pod that kept its IPv6 binding got a new IPv4 elsewhere?
+        prev = {}
+        for r in t[:line - 1]:
+            if r["ev"] in ("cr", "reset"):
+                prev = {(x["e"], x["a"]): x["p"] for x in r["ips"]}
+        byp = {}
+        for x in bad["ips"]:
+            if x["p"]:
+                byp.setdefault(x["p"], []).append(x)
+        for p, xs in byp.items():
+            v4 = [x for x in xs if x["a"] < 100]
+            v6 = [x for x in xs if x["a"] >= 100]
+            if len(v4) == 1 and len(v6) == 1 and v4[0]["e"] != v6[0]["e"] and \
+                    prev.get((v6[0]["e"], v6[0]["a"])) == p and prev.get((v4[0]["e"], v4[0]["a"])) != p:
+                return "c02_v4_rebound_on_other_eni_than_v6"
+        return label
     if prop == "C08" and ev == "fixpoint":
         if not bad.get("stable"):
             if _oscillation_signature(t, line):
                 return "c08_oscillation_idle_on_other_eni"
             if _rdma_oscillation_signature(t, line):
                 return "c08_oscillation_rdma_idle_counted_by_trim_only"
+            if _dual_oscillation_signature(t, line):
+                return "c08_oscillation_v6_trimmed_for_v4_surplus"
             return "c08_no_fixed_point"
         leaked = [c["e"] for c in bad.get("cloud", []) if not c["att"]]
         if leaked:
